@@ -36,6 +36,15 @@ def build_array(n, changes):
 def check_segments(n, changes):
     import biotite.structure as struc
     arr, chain, res, ins, name = build_array(n, changes)
+    rstarts0 = None
+    for het in ([False] * n, [True] * n, [i % 2 == 1 for i in range(n)], [i >= n // 2 for i in range(n)]):
+        # chain and residue boundaries are defined by chain id, residue id, insertion code and residue name alone
+        arr.hetero = np.array(het, dtype=bool)
+        now = (struc.get_residue_starts(arr).tolist(), struc.get_chain_starts(arr).tolist(), struc.get_chain_count(arr), struc.get_residue_count(arr))
+        if rstarts0 is None:
+            rstarts0 = now
+        elif now != rstarts0:
+            return f"segmentation depends on the hetero flags {het}: {now} vs {rstarts0}"
     rstarts = [i for i in range(n) if i == 0 or (chain[i], res[i], ins[i], name[i]) != (chain[i - 1], res[i - 1], ins[i - 1], name[i - 1])]
     cstarts = [i for i in range(n) if i == 0 or chain[i] != chain[i - 1] or res[i] < res[i - 1]]
     for kind, starts_ref in (("residue", rstarts), ("chain", cstarts)):
@@ -107,6 +116,12 @@ def check_segments(n, changes):
                 got = f["spread_KIND_wise"](arr, data_k)
                 if got.shape != (n,) + shape or got.tolist() != [data_k[seg_of[i]].tolist() for i in range(n)]:
                     return f"{kind} spread of per-segment data with shape {(len(segs),) + shape}: result shape {got.shape}"
+            # without an axis the function sees the whole block of a segment (2-D integer / bool data too)
+            d2 = (np.arange(2 * n).reshape(n, 2) % 5)
+            for dd in (d2, d2 > 1):
+                got = f["apply_KIND_wise"](arr, dd, np.sum)
+                if np.shape(got) != (len(segs),) or np.asarray(got).tolist() != [int(dd[s].sum()) for s in segs]:
+                    return f"{kind} apply np.sum without axis on {dd.dtype} data of shape {dd.shape}: {np.asarray(got).tolist()}"
             # the axis is handed to the function as the keyword 'axis' (its second positional parameter may be something else)
             got = f["apply_KIND_wise"](arr, data.astype(float), np.linalg.norm, axis=0)
             if not np.allclose(got, [np.linalg.norm([float(data[i]) for i in s]) for s in segs]):
